@@ -46,6 +46,26 @@ def seqs(K, rnd, n_random, length):
     return out
 
 
+def era_ladder_exhaustion(K, sharing):
+    """two threads, ordered by sig / wai: thread 0 fills its K slots with guards taken in K DIFFERENT eras (thread 1 retires a node between them, which
+       advances the era clock), the victim cell V gets a node born after the newest slot's era, an acquisition of V fails for lack of slots, a guard is
+       released (or - sharing - only a copy that shared the newest slot, so that no slot becomes free), the acquisition is retried, thread 1 retires the
+       victim and scans, thread 0 dereferences what the retried guard holds.  Whatever the retry answers, a guard that was handed out must protect."""
+    V, X = K, K + (1 if sharing else 0)
+    t0, t1, f = [], [], 1
+    for i in range(K):
+        t0 += ['acq%d:%d' % (i, i), 'sig%d' % f]
+        t1 += ['wai%d' % f, 'swp%d:0' % V] + (['swp%d:0' % V] if i == K - 1 else []) + ['sig%d' % (f + 1)]
+        t0 += ['wai%d' % (f + 1)]
+        f += 2
+    if sharing:
+        t0.insert(len(t0) - 2, 'cpy%d:%d' % (K - 1, K))          # before the era moves on: shares the newest slot
+    t0 += ['acq%d:%d' % (V, X), 'rst%d' % (K if sharing else 0), 'acq%d:%d' % (V, X), 'sig%d' % f]
+    t1 += ['wai%d' % f, 'swp%d:0' % V, 'swp%d:0' % V, 'sig%d' % (f + 1)]
+    t0 += ['wai%d' % (f + 1), 'tch%d' % X] + ['tch%d' % i for i in range(1, K)]
+    return ';%s;%s' % (','.join(t0), ','.join(t1))
+
+
 def run(ctx):
     build(['reclaim'])
     q = ctx.quick
@@ -57,6 +77,10 @@ def run(ctx):
         kk = K if K else 2
         for sq in seqs(kk, rnd, 25 if q else 400, 10 if q else 16):
             jobs.append('%s+g;;%s' % (c, sq))
+        if K and K <= 3:
+            jobs.append('%s+g;%s' % (c, era_ladder_exhaustion(K, False)))
+            if K <= 2:
+                jobs.append('%s+g;%s' % (c, era_ladder_exhaustion(K, True)))
         # interleaved with thread exit and control-block reuse, and with a second thread retiring
         jobs.append('%s+g;;acq0:0,acq1:1,acq2:2,rst0;@0:acq0:0,acq1:1,acq2:2,acq0:3;swp0:0,swp1:0' % c)
         jobs.append('%s+g;;acq0:0,cpy0:1,cpy1:2,mov2:3;swp0:0,swp0:0;@0:acq0:0,acq1:1,acq2:2' % c)
